@@ -82,13 +82,20 @@ func (sll *LinuxSLL) NextLayerType() gopacket.LayerType {
 
 func (sll *LinuxSLL) DecodeFromBytes(data []byte, df gopacket.DecodeFeedback) error {
 	if len(data) < 16 {
+		df.SetTruncated()
 		return errors.New("Linux SLL packet too small")
 	}
 	sll.PacketType = LinuxSLLPacketType(binary.BigEndian.Uint16(data[0:2]))
 	sll.AddrType = binary.BigEndian.Uint16(data[2:4])
 	sll.AddrLen = binary.BigEndian.Uint16(data[4:6])
 
-	sll.Addr = net.HardwareAddr(data[6 : sll.AddrLen+6])
+	// The address field is always 8 bytes long; if the real address is
+	// longer, AddrLen says so but only the first 8 bytes are present.
+	addrLen := int(sll.AddrLen)
+	if addrLen > 8 {
+		addrLen = 8
+	}
+	sll.Addr = net.HardwareAddr(data[6 : 6+addrLen])
 	sll.EthernetType = EthernetType(binary.BigEndian.Uint16(data[14:16]))
 	sll.BaseLayer = BaseLayer{data[:16], data[16:]}
 
